@@ -7,6 +7,21 @@ TRUST = ("TLC 1.8 evaluates the TLA+ judge; harness/lib.py projections (real obj
          "of abstract cases are trusted; bounds as stated in the evidence file")
 
 CHECKS = {
+ "C10": dict(
+    text="Morph.tla defines every morphometric directly from the parent relation and integer lattice positions (segment lengths are integers; straight-line "
+         "distances, tortuosity / contraction and all angles in exact squared or dot-product form): tree / branch / path lengths, length = sum of branch lengths, "
+         "tortuosity, radial distances, the two branch-order conventions, counts, Sholl counts at a radius (min <= rho < max over segment end radii, exact ties "
+         "included) and on step grids, and the L-Measure quantities (stems, bifurcations, branches, tips, path and Euclidean distance, branch order, terminal "
+         "degree, partition asymmetry, fragmentation, contraction, local / remote amplitude, tilt and torque). TLC generates every lattice tree within the bounds "
+         "and judges what the feature classes, the extractor front end, Sholl, LMeasure and the population front end (zero-padded rows) report for each",
+    design="4/C10", technique="TLA+ declarative specification of the morphometrics on lattice trees + TLC exhaustive small-scope generation, replay into the code, TLC-judged observations"),
+ "C11": dict(
+    text="The specification of C10 is a function of the parent relation and inter-node distances only, i.e. pose- and numbering-free by construction. Every "
+         "generated lattice tree is concretised after a lattice or generic rotation + translation, a renumbering (root first), a uniform scaling (2, 0.37) or a "
+         "combination, all features are asked again and judged by the same TLA+ module with lengths divided by the scale factor; volumes at the deterministic "
+         "accuracy levels are compared with the untransformed volume times scale^3; a second pass derives the moved / scaled tree from an already measured "
+         "tree object through the library's own transforms, so that state cached on the original cannot leak into the copy unnoticed",
+    design="4/C11", technique="metamorphic replay judged by the pose-free TLA+ specification of C10 (TLC decides every comparison)"),
  "C14": dict(
     text="VolTree.tla states, in exact rationals, the union volume of a collinear tree as the integral of the maximal cross-section: per compartment the three "
          "profiles (frustum, ball A, ball B) cross at rational points, and on every piece the profile largest at the midpoint is integrated (TSeg); under the "
